@@ -957,6 +957,37 @@ def direct_extras(R, rng, tier):
                                          f'{[(int(k), np.asarray(v).tolist()) for k, v in zip(f.keys(), f.values())]}'[:500], keys=ks, values=arr.tolist())
                 except Exception as e:  # noqa
                     viol('asfullmv-raises', f'asfullmv of an ndarray-backed multivector raised {type(e).__name__}: {e}'[:300], keys=ks)
+    # keys given as numpy integers (signed, unsigned, small widths): the multivector is the one built from python ints - same stored keys,
+    # same coefficients by name, and products with it are the products of that element (an unsigned key must not wrap around in a filter)
+    for it in range(6 if tier == 'quick' else 60):
+        d = rng.choice((2, 3, 4))
+        alg = Algebra(d)
+        canon = [int(k) for k in alg.canon2bin.values()]
+        ka, kb = rng.sample(canon, rng.randint(1, 3)), rng.sample(canon, rng.randint(1, 3))
+        va, vb = [rng.randint(1, 9) for _ in ka], [rng.randint(1, 9) for _ in kb]
+        dt = rng.choice([np.uint8, np.uint16, np.int8, np.int64, np.uint64])
+        R.count('extras=numpy-keys'); R.case(('extras-npkeys', it, dt.__name__, tuple(ka), tuple(kb)), True)
+        try:
+            fresh = Algebra(d)
+            xa, xb = alg.multivector(keys=tuple(np.array(ka, dtype=dt)), values=list(va)), alg.multivector(keys=tuple(np.array(kb, dtype=dt)), values=list(vb))
+            ya, yb = fresh.multivector(keys=tuple(ka), values=list(va)), fresh.multivector(keys=tuple(kb), values=list(vb))
+            cm = lambda m_: {int(k_): v_ for k_, v_ in zip(m_.keys(), m_.values()) if v_ != 0}
+            bad_ = None
+            if [int(k_) for k_ in xa.keys()] != ka:
+                bad_ = f'stored keys are {[repr(k_) for k_ in xa.keys()]}'
+            else:
+                for sym_, f_ in (('|', lambda p_, q_: p_ | q_), ('*', lambda p_, q_: p_ * q_), ('^', lambda p_, q_: p_ ^ q_), ('lc', lambda p_, q_: p_.lc(q_)), ('rc', lambda p_, q_: p_.rc(q_))):
+                    if cm(f_(xa, xb)) != cm(f_(ya, yb)):
+                        bad_ = f'a {sym_} b = {cm(f_(xa, xb))}, with python-int keys {cm(f_(ya, yb))}'
+                        break
+                if bad_ is None:      # ... and the same blades given as python ints afterwards, on the same algebra
+                    za, zb = alg.multivector(keys=tuple(ka), values=list(va)), alg.multivector(keys=tuple(kb), values=list(vb))
+                    if cm(za | zb) != cm(ya | yb):
+                        bad_ = f'after the numpy-key operands were used, a | b with python-int keys = {cm(za | zb)} instead of {cm(ya | yb)}'
+        except Exception as e:  # noqa
+            bad_ = f'raised {type(e).__name__}: {e}'[:200]
+        if bad_:
+            viol('numpy-keys', f'multivectors built with keys of type numpy.{dt.__name__} (a: keys {ka} values {va}, b: keys {kb} values {vb}) in Algebra({d}): {bad_}', keys=[ka, kb], values=[va, vb], dtype=dt.__name__)
     # spellings resolved by a parent algebra, then by an algebra derived from it with another basis (and the other way round)
     pga_basis = list(Algebra.fromname('3DPGA').basis)
     for it in range(4 if tier == 'quick' else 40):
